@@ -167,8 +167,8 @@ impl<'a> FnTr<'a> {
                 if name == "bool" {
                     return Ok(Ty::Bool);
                 }
-                // builder O: `Result<T, RadioError>` (I/O mode)
-                if name == "Result" {
+                // builder O: `Result<T, RadioError>` (units that use the I/O mode)
+                if name == "Result" && self.reg.io.borrow().unit_io {
                     if let PathArguments::AngleBracketed(ab) = &last.arguments {
                         if let Some(GenericArgument::Type(inner)) = ab.args.first() {
                             return Ok(Ty::Res(Box::new(self.ty(inner)?)));
